@@ -1,14 +1,702 @@
-//! placeholder while the first dependency build runs
+//! E2 `mempoolsim`: interleaving-level deterministic simulation of the app-side mempool (C13).
+//!
+//! Real code: `crate::mempool::Mempool` (insert / remove_tx_invalid / run_maintenance incl.
+//! recosting / builder_queue / transaction_status / pending_nonce / len / removal cache / TTL),
+//! `crate::service::mempool::check_tx` (status -> `CheckedTransaction::new` -> nonce -> costs ->
+//! balances -> insert), `CheckedTransaction::{new, total_costs, execute}` and the checked actions
+//! they run (Transfer, RollupDataSubmission, FeeChange), `cnidarium::StateDelta`.
+//! Stubs: chain state (`memstate::MemSnap`, in-memory `StateRead` whose reads may yield), CometBFT
+//! and gRPC clients, the consensus driver (mirrors what `App` does around the mempool), the clock
+//! (paused tokio runtime), the scheduler (`exec::Executor`).
+//!
+//! Files: `memstate.rs` (state), `exec.rs` (executor), `sim.rs` (world, simulated tasks, run loop),
+//! `oracle.rs` (the C13 oracle), `probe.rs` (hook H9, mounted inside `crate::mempool`).
 #![allow(dead_code, unreachable_pub, clippy::all, clippy::pedantic)]
-use crate::verif::common::{Engine, Outcome};
+
+use serde::{
+    Deserialize,
+    Serialize,
+};
+
+use crate::verif::common::{
+    Engine,
+    Outcome,
+    Rng,
+};
+
+#[path = "/verif/harness/sequencer/mempoolsim/exec.rs"]
+pub(crate) mod exec;
+#[path = "/verif/harness/sequencer/mempoolsim/memstate.rs"]
+pub(crate) mod memstate;
+#[path = "/verif/harness/sequencer/mempoolsim/oracle.rs"]
+pub(crate) mod oracle;
+#[path = "/verif/harness/sequencer/mempoolsim/sim.rs"]
+pub(crate) mod sim;
+
+pub const PROPERTY: &str = "C13";
+pub const MAX_ACCOUNTS: usize = 6;
+pub const MAX_ASSETS: usize = 3;
+
+// ---------------------------------------------------------------------------------------------
+// scenario
+// ---------------------------------------------------------------------------------------------
+
+#[derive(Serialize, Deserialize, Clone, Debug)]
+pub struct Config {
+    /// "cometbft": only legal CometBFT behaviour (CheckTx never overlaps Commit/maintenance);
+    /// "grpc": the gRPC submit path may additionally interleave with anything.
+    pub profile: String,
+    /// Account 0 is the sudo account (may submit FeeChange).
+    pub n_accounts: usize,
+    pub n_assets: usize,
+    /// Assets `0..n_fee_assets` are allowed fee assets.
+    pub n_fee_assets: usize,
+    /// Configured total parked limit of the mempool.
+    pub parked_max: usize,
+    pub exec_cache: usize,
+    /// Probability (percent) that a state read yields once.
+    pub yield_pct: u64,
+    pub sched_seed: u64,
+    pub sched_mode: u8,
+    pub init_nonce: Vec<u32>,
+    /// `[account][asset]`; 0 = no balance entry.
+    pub init_balance: Vec<Vec<u64>>,
+    pub fee_transfer: (u64, u64),
+    pub fee_seq: (u64, u64),
+}
+
+#[derive(Serialize, Deserialize, Clone, Debug, PartialEq, Eq)]
+pub enum NonceSpec {
+    /// The client wallet's next nonce (starts at the chain nonce it sees on first use).
+    Next,
+    /// Wallet's next nonce + k, without advancing the wallet (leaves a hole to fill later).
+    Gap(u32),
+    /// Chain nonce - k (already used).
+    Stale(u32),
+    /// The nonce the wallet used last (replacement attempt with a different body).
+    Replace,
+    /// Re-read the chain nonce into the wallet, then `Next`.
+    Resync,
+    Abs(u32),
+}
+
+#[derive(Serialize, Deserialize, Clone, Debug, PartialEq, Eq)]
+pub enum Body {
+    Transfer {
+        to: usize,
+        asset: usize,
+        fee_asset: usize,
+        amount: u64,
+    },
+    Seq {
+        len: usize,
+        fee_asset: usize,
+    },
+    /// `target`: 0 = Transfer fees, 1 = RollupDataSubmission fees. Only valid from account 0.
+    FeeChange {
+        target: u8,
+        base: u64,
+        mult: u64,
+    },
+}
+
+#[derive(Serialize, Deserialize, Clone, Copy, Debug, PartialEq, Eq)]
+pub enum Via {
+    /// CometBFT CheckTx (respects CometBFT's mempool lock around Commit; consumes the removal
+    /// cache entry like `handle_check_tx_request`).
+    Comet,
+    /// gRPC `submit_transaction`.
+    Grpc,
+}
+
+#[derive(Serialize, Deserialize, Clone, Debug, PartialEq, Eq)]
+pub enum PollWhat {
+    /// `transaction_status` of the tx built by the given Submit op.
+    Status(u64),
+    Len,
+    PendingNonce(usize),
+    Queue,
+}
+
+#[derive(Serialize, Deserialize, Clone, Debug)]
+pub enum OpKind {
+    Submit {
+        acct: usize,
+        nonce: NonceSpec,
+        body: Body,
+        via: Via,
+        /// Re-submit exactly the bytes built by that earlier Submit op (concurrent duplicate,
+        /// CometBFT recheck, user re-submission).
+        dup_of: Option<u64>,
+    },
+    /// One consensus round of the simulated proposer/validator.
+    Block {
+        /// How many txs to take at most from `builder_queue` (0 = none: a block proposed by
+        /// somebody else).
+        max_txs: usize,
+        /// Transactions that did not come from this mempool: (account, body); the nonce is the
+        /// account's nonce at execution time.
+        foreign: Vec<(usize, Body)>,
+        /// false: the round fails after execution (no commit, no maintenance).
+        commit: bool,
+    },
+    Poll {
+        what: PollWhat,
+    },
+    /// Virtual time passes.
+    Advance {
+        ms: u64,
+    },
+}
+
+#[derive(Serialize, Deserialize, Clone, Debug)]
+pub struct Op {
+    /// Stable id: keeps its meaning (PRNG sub-stream, scheduling priority sequence, references
+    /// from other ops) when other ops are deleted.
+    pub id: u64,
+    /// Scheduler steps to run after releasing this op before the next op is released.
+    pub gap: u32,
+    pub kind: OpKind,
+}
+
+#[derive(Serialize, Deserialize, Clone, Debug)]
+pub struct Scenario {
+    pub cfg: Config,
+    pub ops: Vec<Op>,
+}
+
+// ---------------------------------------------------------------------------------------------
+// generator
+// ---------------------------------------------------------------------------------------------
+
+struct Gen {
+    r: Rng,
+    cfg: Config,
+    ops: Vec<Op>,
+    next_id: u64,
+    submit_ids: Vec<u64>,
+    f_gap: bool,
+    f_dup: bool,
+    f_foreign: bool,
+    f_feechange: bool,
+    f_ttl: bool,
+    f_failed_round: bool,
+    f_stale: bool,
+    f_replace: bool,
+    f_burst: bool,
+}
+
+impl Gen {
+    fn push(&mut self, gap: u32, kind: OpKind) -> u64 {
+        let id = self.next_id;
+        self.next_id += 1;
+        if matches!(kind, OpKind::Submit { dup_of: None, .. }) {
+            self.submit_ids.push(id);
+        }
+        self.ops.push(Op {
+            id,
+            gap,
+            kind,
+        });
+        id
+    }
+
+    fn gap(&mut self) -> u32 {
+        if self.f_burst {
+            *self.r.pick(&[0, 0, 0, 0, 1, 2, 6])
+        } else {
+            *self.r.pick(&[0, 0, 1, 2, 4, 8, 25])
+        }
+    }
+
+    fn via(&mut self) -> Via {
+        if self.cfg.profile == "grpc" && self.r.chance(3, 5) {
+            Via::Grpc
+        } else {
+            Via::Comet
+        }
+    }
+
+    fn fee_asset(&mut self) -> usize {
+        // mostly an allowed fee asset, rarely one that is not allowed (rejected by check_tx)
+        if self.cfg.n_assets > self.cfg.n_fee_assets && self.r.chance(1, 25) {
+            self.cfg.n_fee_assets
+        } else {
+            self.r.below_usize(self.cfg.n_fee_assets)
+        }
+    }
+
+    fn body(&mut self, acct: usize, big: bool) -> Body {
+        let kind = self.r.weighted(&[6, 3]);
+        if kind == 0 {
+            let asset = self.r.below_usize(self.cfg.n_assets);
+            let bal = self.cfg.init_balance[acct][asset];
+            let pct: u64 = if big {
+                *self.r.pick(&[45, 70, 90, 99])
+            } else {
+                *self.r.pick(&[0, 1, 5, 20, 45, 70, 101, 300])
+            };
+            let amount = if bal == 0 {
+                *self.r.pick(&[0, 1, 10])
+            } else {
+                ((u128::from(bal) * u128::from(pct)) / 100).min(u128::from(u64::MAX)) as u64
+            };
+            let mut to = self.r.below_usize(self.cfg.n_accounts);
+            if to == acct && self.r.chance(4, 5) {
+                to = (to + 1) % self.cfg.n_accounts;
+            }
+            Body::Transfer {
+                to,
+                asset,
+                fee_asset: self.fee_asset(),
+                amount,
+            }
+        } else {
+            Body::Seq {
+                len: *self.r.pick(&[0, 1, 3, 10, 40]),
+                fee_asset: self.fee_asset(),
+            }
+        }
+    }
+
+    fn submit(&mut self) {
+        let acct = self.r.below_usize(self.cfg.n_accounts);
+        let mut weights = [70u32, 0, 0, 0, 4];
+        if self.f_gap {
+            weights[1] = 14;
+        }
+        if self.f_stale {
+            weights[2] = 5;
+        }
+        if self.f_replace {
+            weights[3] = 6;
+        }
+        let nonce = match self.r.weighted(&weights) {
+            0 => NonceSpec::Next,
+            1 => NonceSpec::Gap(*self.r.pick(&[1, 1, 1, 2, 3])),
+            2 => NonceSpec::Stale(*self.r.pick(&[1, 1, 2])),
+            3 => NonceSpec::Replace,
+            _ => NonceSpec::Resync,
+        };
+        let body = if acct == 0 && self.f_feechange && self.r.chance(1, 3) {
+            Body::FeeChange {
+                target: self.r.below(2) as u8,
+                base: *self.r.pick(&[0, 1, 5, 50, 500, 5000]),
+                mult: *self.r.pick(&[0, 1, 3]),
+            }
+        } else {
+            self.body(acct, false)
+        };
+        let via = self.via();
+        let gap = self.gap();
+        let id = self.push(
+            gap,
+            OpKind::Submit {
+                acct,
+                nonce,
+                body: body.clone(),
+                via,
+                dup_of: None,
+            },
+        );
+        // a concurrent duplicate of the very same tx
+        if self.f_dup && self.r.chance(1, 6) {
+            let via = self.via();
+            let gap = self.gap();
+            self.push(
+                gap,
+                OpKind::Submit {
+                    acct,
+                    nonce: NonceSpec::Next,
+                    body,
+                    via,
+                    dup_of: Some(id),
+                },
+            );
+        }
+    }
+
+    fn resubmit(&mut self) {
+        if self.submit_ids.is_empty() {
+            return self.submit();
+        }
+        let target = *self.r.pick(&self.submit_ids);
+        let Some(Op {
+            kind:
+                OpKind::Submit {
+                    acct,
+                    body,
+                    ..
+                },
+            ..
+        }) = self.ops.iter().find(|o| o.id == target).cloned()
+        else {
+            return;
+        };
+        let via = self.via();
+        let gap = self.gap();
+        self.push(
+            gap,
+            OpKind::Submit {
+                acct,
+                nonce: NonceSpec::Next,
+                body,
+                via,
+                dup_of: Some(target),
+            },
+        );
+    }
+
+    fn flood(&mut self) {
+        // one account parks many gapped nonces (per-account and total parked limits)
+        let acct = self.r.below_usize(self.cfg.n_accounts);
+        let n = 14 + self.r.below(6) as u32;
+        for k in 1..=n {
+            let body = Body::Seq {
+                len: 0,
+                fee_asset: 0,
+            };
+            let via = self.via();
+            let gap = *self.r.pick(&[0, 0, 1]);
+            self.push(
+                gap,
+                OpKind::Submit {
+                    acct,
+                    nonce: NonceSpec::Gap(k),
+                    body,
+                    via,
+                    dup_of: None,
+                },
+            );
+        }
+    }
+
+    fn block(&mut self, flush: bool) {
+        let max_txs = if flush {
+            100
+        } else {
+            *self.r.pick(&[0, 1, 1, 2, 3, 5, 100])
+        };
+        let mut foreign = Vec::new();
+        if !flush && self.f_foreign && self.r.chance(1, 2) {
+            for _ in 0..=self.r.below(2) {
+                let acct = self.r.below_usize(self.cfg.n_accounts);
+                let big = self.r.chance(2, 3);
+                let body = if acct == 0 && self.f_feechange && self.r.chance(1, 3) {
+                    Body::FeeChange {
+                        target: self.r.below(2) as u8,
+                        base: *self.r.pick(&[0, 5, 50, 500, 5000]),
+                        mult: *self.r.pick(&[0, 1, 3]),
+                    }
+                } else {
+                    self.body(acct, big)
+                };
+                foreign.push((acct, body));
+            }
+        }
+        let commit = flush || !(self.f_failed_round && self.r.chance(1, 5));
+        let gap = if flush {
+            40
+        } else {
+            *self.r.pick(&[0, 1, 3, 10, 30])
+        };
+        self.push(
+            gap,
+            OpKind::Block {
+                max_txs,
+                foreign,
+                commit,
+            },
+        );
+    }
+
+    fn poll(&mut self) {
+        let what = match self.r.weighted(&[5, 1, 2, 2]) {
+            0 if !self.submit_ids.is_empty() => PollWhat::Status(*self.r.pick(&self.submit_ids)),
+            1 => PollWhat::Len,
+            2 => PollWhat::PendingNonce(self.r.below_usize(self.cfg.n_accounts)),
+            _ => PollWhat::Queue,
+        };
+        let gap = self.gap();
+        self.push(
+            gap,
+            OpKind::Poll {
+                what,
+            },
+        );
+    }
+}
+
+pub fn generate(profile: &str, tier: &str, seed: u64) -> Scenario {
+    let mut r = Rng::new(seed);
+    let thorough = tier == "thorough";
+    let n_accounts = 2 + r.below_usize(4);
+    let n_assets = 1 + r.below_usize(MAX_ASSETS);
+    let n_fee_assets = 1 + r.below_usize(n_assets);
+    let tight = r.chance(3, 4);
+    let mut init_balance = Vec::new();
+    for _ in 0..n_accounts {
+        let mut row = Vec::new();
+        for asset in 0..n_assets {
+            let b: u64 = if tight {
+                *r.pick(&[0, 40, 150, 600, 5_000, 1_000_000_000_000])
+            } else if asset == 0 {
+                1_000_000_000_000_000
+            } else {
+                *r.pick(&[0, 1_000_000_000_000])
+            };
+            row.push(b);
+        }
+        init_balance.push(row);
+    }
+    let cfg = Config {
+        profile: if profile.is_empty() {
+            "cometbft".to_string()
+        } else {
+            profile.to_string()
+        },
+        n_accounts,
+        n_assets,
+        n_fee_assets,
+        parked_max: *r.pick(&[2, 4, 6, 10, 16, 30, 100]),
+        exec_cache: *r.pick(&[1, 3, 100]),
+        yield_pct: *r.pick(&[0, 5, 20, 50]),
+        sched_seed: r.next_u64(),
+        sched_mode: r.below(2) as u8,
+        init_nonce: (0..n_accounts)
+            .map(|_| *r.pick(&[0, 0, 0, 1, 5, 1000]))
+            .collect(),
+        init_balance,
+        fee_transfer: (*r.pick(&[0, 1, 12]), 0),
+        fee_seq: (*r.pick(&[0, 1, 32]), *r.pick(&[0, 1, 3])),
+    };
+    let mut g = Gen {
+        f_gap: r.chance(4, 5),
+        f_dup: r.chance(2, 3),
+        f_foreign: r.chance(4, 5),
+        f_feechange: r.chance(1, 2),
+        f_ttl: r.chance(1, 4),
+        f_failed_round: r.chance(1, 3),
+        f_stale: r.chance(1, 2),
+        f_replace: r.chance(1, 2),
+        f_burst: r.chance(1, 2),
+        r: r.fork(1),
+        cfg,
+        ops: Vec::new(),
+        next_id: 1,
+        submit_ids: Vec::new(),
+    };
+    let f_flood = r.chance(1, 6);
+    let n_ops = if thorough {
+        30 + r.below(90)
+    } else {
+        20 + r.below(50)
+    };
+    let flood_at = r.below(n_ops);
+    for i in 0..n_ops {
+        if f_flood && i == flood_at {
+            g.flood();
+        }
+        let mut weights = [55u32, 14, 10, 0, 0];
+        if g.f_dup {
+            weights[3] = 10;
+        }
+        if g.f_ttl {
+            weights[4] = 3;
+        }
+        match g.r.weighted(&weights) {
+            0 => g.submit(),
+            1 => g.block(false),
+            2 => g.poll(),
+            3 => g.resubmit(),
+            _ => {
+                let ms = *g.r.pick(&[1_000, 61_000, 120_000, 241_000]);
+                let gap = g.gap();
+                g.push(
+                    gap,
+                    OpKind::Advance {
+                        ms,
+                    },
+                );
+            }
+        }
+    }
+    // flush: two committed full blocks, then status polls
+    g.block(true);
+    g.block(true);
+    Scenario {
+        cfg: g.cfg,
+        ops: g.ops,
+    }
+}
+
+// ---------------------------------------------------------------------------------------------
+// engine
+// ---------------------------------------------------------------------------------------------
+
 pub struct MempoolSim;
-#[derive(serde::Serialize, serde::Deserialize, Clone)]
-pub struct Scenario { pub seed: u64 }
+
 impl Engine for MempoolSim {
     type Scenario = Scenario;
+
     const NAME: &'static str = "mempoolsim";
-    fn generate(_p: &str, _t: &str, seed: u64) -> Scenario { Scenario { seed } }
-    fn run(_s: &Scenario) -> Outcome { Outcome::default() }
-    fn len(_s: &Scenario) -> usize { 0 }
-    fn retain(s: &Scenario, _k: &[bool]) -> Scenario { s.clone() }
+
+    fn generate(profile: &str, tier: &str, seed: u64) -> Scenario {
+        generate(profile, tier, seed)
+    }
+
+    fn run(scenario: &Scenario) -> Outcome {
+        sim::run(scenario)
+    }
+
+    fn len(scenario: &Scenario) -> usize {
+        scenario.ops.len()
+    }
+
+    fn retain(scenario: &Scenario, keep: &[bool]) -> Scenario {
+        Scenario {
+            cfg: scenario.cfg.clone(),
+            ops: scenario
+                .ops
+                .iter()
+                .zip(keep)
+                .filter(|(_, k)| **k)
+                .map(|(o, _)| o.clone())
+                .collect(),
+        }
+    }
+
+    fn simplify(scenario: &Scenario) -> Vec<Scenario> {
+        let mut out = Vec::new();
+        if scenario.cfg.yield_pct != 0 {
+            let mut s = scenario.clone();
+            s.cfg.yield_pct = 0;
+            out.push(s);
+        }
+        if scenario.ops.iter().any(|o| o.gap != 0) {
+            let mut s = scenario.clone();
+            for o in &mut s.ops {
+                o.gap = 0;
+            }
+            out.push(s);
+        }
+        for (i, op) in scenario.ops.iter().enumerate() {
+            if op.gap > 1 {
+                let mut s = scenario.clone();
+                s.ops[i].gap = op.gap / 2;
+                out.push(s);
+            }
+            match &op.kind {
+                OpKind::Block {
+                    max_txs,
+                    foreign,
+                    commit,
+                } => {
+                    if !foreign.is_empty() {
+                        let mut s = scenario.clone();
+                        s.ops[i].kind = OpKind::Block {
+                            max_txs: *max_txs,
+                            foreign: foreign[1..].to_vec(),
+                            commit: *commit,
+                        };
+                        out.push(s);
+                    }
+                }
+                OpKind::Submit {
+                    acct,
+                    nonce,
+                    body,
+                    via,
+                    dup_of,
+                } => {
+                    if *via == Via::Grpc {
+                        let mut s = scenario.clone();
+                        s.ops[i].kind = OpKind::Submit {
+                            acct: *acct,
+                            nonce: nonce.clone(),
+                            body: body.clone(),
+                            via: Via::Comet,
+                            dup_of: *dup_of,
+                        };
+                        out.push(s);
+                    }
+                }
+                _ => {}
+            }
+        }
+        if scenario.cfg.n_accounts > 2
+            && !scenario.ops.iter().any(|o| uses_account(o, scenario.cfg.n_accounts - 1))
+        {
+            let mut s = scenario.clone();
+            s.cfg.n_accounts -= 1;
+            s.cfg.init_nonce.pop();
+            s.cfg.init_balance.pop();
+            out.push(s);
+        }
+        out
+    }
+
+    fn summarize(scenario: &Scenario) -> serde_json::Value {
+        let mut kinds = std::collections::BTreeMap::<&str, u64>::new();
+        for op in &scenario.ops {
+            let k = match &op.kind {
+                OpKind::Submit {
+                    dup_of: Some(_), ..
+                } => "resubmit",
+                OpKind::Submit {
+                    via: Via::Grpc, ..
+                } => "submit_grpc",
+                OpKind::Submit {
+                    ..
+                } => "submit_comet",
+                OpKind::Block {
+                    commit: false, ..
+                } => "failed_round",
+                OpKind::Block {
+                    ..
+                } => "block",
+                OpKind::Poll {
+                    ..
+                } => "poll",
+                OpKind::Advance {
+                    ..
+                } => "advance",
+            };
+            *kinds.entry(k).or_default() += 1;
+        }
+        let head: Vec<_> = scenario.ops.iter().take(12).collect();
+        serde_json::json!({
+            "cfg": {
+                "profile": scenario.cfg.profile, "accounts": scenario.cfg.n_accounts,
+                "assets": scenario.cfg.n_assets, "fee_assets": scenario.cfg.n_fee_assets,
+                "parked_max": scenario.cfg.parked_max, "yield_pct": scenario.cfg.yield_pct,
+                "sched_mode": scenario.cfg.sched_mode, "init_nonce": scenario.cfg.init_nonce,
+                "fee_transfer": scenario.cfg.fee_transfer, "fee_seq": scenario.cfg.fee_seq,
+            },
+            "ops": scenario.ops.len(),
+            "op_kinds": kinds,
+            "first_ops": head,
+        })
+    }
+}
+
+fn body_uses(body: &Body, a: usize) -> bool {
+    matches!(body, Body::Transfer { to, .. } if *to == a)
+}
+
+fn uses_account(op: &Op, a: usize) -> bool {
+    match &op.kind {
+        OpKind::Submit {
+            acct,
+            body,
+            ..
+        } => *acct == a || body_uses(body, a),
+        OpKind::Block {
+            foreign, ..
+        } => foreign.iter().any(|(acct, body)| *acct == a || body_uses(body, a)),
+        OpKind::Poll {
+            what: PollWhat::PendingNonce(acct),
+        } => *acct == a,
+        _ => false,
+    }
 }
